@@ -72,7 +72,8 @@ deriving DecidableEq, Repr
 /-- functors in the loop's pending queue -/
 inductive Task
   | sendInLoop (data : Bytes)        -- raw `this`
-  | shutdownInLoop (holds : Bool)    -- `shutdown()` and the drain path of `handleWrite`
+  | shutdownInLoop                   -- queued by `shutdown()`
+  | drainShutdownInLoop              -- queued by the drain path of `handleWrite`
   | forceCloseInLoop                 -- holds a reference
   | connectDestroyed                 -- holds a reference
   | writeComplete                    -- holds a reference
@@ -85,7 +86,8 @@ deriving DecidableEq, Repr
 def Task.strong : Task → Bool
   | .connectDestroyed | .writeComplete | .highWater _ => true
   | .forceCloseInLoop => forceCloseHoldsRef
-  | .shutdownInLoop holds => holds
+  | .shutdownInLoop => shutdownHoldsRef
+  | .drainShutdownInLoop => drainShutdownHoldsRef
   | .sendInLoop _ => sendPieceHoldsRef
   | .startReadInLoop => startReadHoldsRef
   | .stopReadInLoop => stopReadHoldsRef
@@ -223,7 +225,7 @@ def act (c : Conn) (foreign : Bool) : Act → Conn
     else c
   | .shutdown =>
     if shutdownAccepts c.st then
-      handOff { c with st := .kDisconnecting } foreign shutdownDispatch (.shutdownInLoop shutdownHoldsRef) shutdownInLoop
+      handOff { c with st := .kDisconnecting } foreign shutdownDispatch Task.shutdownInLoop shutdownInLoop
     else c
   | .forceClose =>
     if forceCloseAccepts c.st then
@@ -286,7 +288,7 @@ def afterDrain (c : Conn) : Conn :=
   let c2 : Conn := if drainWC c1.hasWC then enqueue c1 .writeComplete else c1
   -- the deferred half-close: a direct call, or queued behind what is already pending
   if drainShutdown c2.st then
-    handOff c2 false drainShutdownDispatch (.shutdownInLoop drainShutdownHoldsRef) shutdownInLoop
+    handOff c2 false drainShutdownDispatch .drainShutdownInLoop shutdownInLoop
   else c2
 
 def handleWriteRes (c : Conn) : WriteRes → Conn
@@ -338,7 +340,8 @@ def runTask (c : Conn) (t : Task) : Conn :=
   else
   match t with
   | .sendInLoop d => sendInLoop c d
-  | .shutdownInLoop _ => shutdownInLoop c
+  | .shutdownInLoop => shutdownInLoop c
+  | .drainShutdownInLoop => shutdownInLoop c
   | .forceCloseInLoop => if forceCloseInLoopActs c.st then handleClose c else c
   | .connectDestroyed => connectDestroyed c
   | .writeComplete => callback c .wc .wc
@@ -381,7 +384,10 @@ def dispatch (c : Conn) : Src → Conn
   | .conn r => if c.dead then c else handleEvent c r
   | .timer => if c.dead then c else fireTimers c
 
-def drainPending (c : Conn) : Conn := runBatch c.pending.length { c with pending := [], batch := c.pending }
+/-- `doPendingFunctors`: swap the pending functors out, run them (`batch` is empty whenever
+this is called; written so that it does not matter) -/
+def drainPending (c : Conn) : Conn :=
+  runBatch (c.batch ++ c.pending).length { c with pending := [], batch := c.batch ++ c.pending }
 
 def iter (c : Conn) (active : List Src) : Conn :=
   if c.dead then c else
@@ -417,7 +423,7 @@ def step (c : Conn) : Input → Conn
   -- `~TcpServer` for this connection, on the loop thread: drop the map's reference and run
   -- `connectDestroyed` (through `runInLoop`, i.e. at once); the functor's reference goes
   -- away when the call returns
-  | .ownerDestroy => if c.dead || !c.alive || !c.owner then c else maybeDestroy (connectDestroyed { c with owner := false })
+  | .ownerDestroy => if c.dead || !c.alive || !c.owner then c else maybeDestroy { connectDestroyed c with owner := false }
   | .iter a => iter c a
 
 def run (c : Conn) (ins : List Input) : Conn := ins.foldl step c
